@@ -224,6 +224,37 @@ func (a *epAnchors) slotStores(fn *ssa.Function) []*ssa.Store {
 	return out
 }
 
+// sameIndexVia: i2 is idx itself, or the parameter of a private helper that
+// every call of that helper in fn binds to idx (e.registered(id) testing
+// e.handlers[id] != nil for its caller).
+func sameIndexVia(c *core.Ctx, fn *ssa.Function, i2, idx ssa.Value) bool {
+	if core.SameValue(i2, idx) {
+		return true
+	}
+	p, ok := core.Canon(i2).(*ssa.Parameter)
+	if !ok || p.Parent() == fn || !isPrivateHelper(c, p.Parent()) {
+		return false
+	}
+	h := p.Parent()
+	pi := -1
+	for i, q := range h.Params {
+		if q == p {
+			pi = i
+		}
+	}
+	n := 0
+	for _, call := range core.Calls(fn) {
+		if core.StaticCallee(call) != h {
+			continue
+		}
+		n++
+		if pi < 0 || pi >= len(call.Common().Args) || !core.SameValue(call.Common().Args[pi], idx) {
+			return false
+		}
+	}
+	return n > 0
+}
+
 // takeOutHelper: h is a private method of the end point that takes a handler
 // out of the table for its caller — "func (e *endPoint) takeHandler(id int)
 // *Handler": every return hands back nil or the content of the slot whose
@@ -232,13 +263,35 @@ func (a *epAnchors) slotStores(fn *ssa.Function) []*ssa.Store {
 // slot is cleared before that mutex is released.  The index of the id
 // parameter is returned.
 func (a *epAnchors) takeOutHelper(c *core.Ctx, lc *core.LockCache, h *ssa.Function) (int, bool) {
-	if h == nil || len(h.Blocks) == 0 || !isPrivateHelper(c, h) || h.Signature.Results().Len() != 1 {
+	if h == nil || len(h.Blocks) == 0 || !isPrivateHelper(c, h) {
+		return 0, false
+	}
+	withFlag := false
+	switch res := h.Signature.Results(); res.Len() {
+	case 1:
+	case 2:
+		// (handler, found bool)
+		b, ok := res.At(1).Type().Underlying().(*types.Basic)
+		if !ok || b.Kind() != types.Bool {
+			return 0, false
+		}
+		withFlag = true
+	default:
 		return 0, false
 	}
 	pi := -1
 	some := false
 	for _, ret := range core.Returns(h) {
-		rv := core.Canon(core.RetVal(ret, 0))
+		rv := core.Canon(core.ResolveLoad(core.RetVal(ret, 0)))
+		if withFlag {
+			found, isConst := core.ConstBool(core.ResolveLoad(core.RetVal(ret, 1)))
+			if !isConst {
+				return 0, false
+			}
+			if !found {
+				continue // what is returned next to found=false is not a handler
+			}
+		}
 		if core.IsNilConst(rv) {
 			continue
 		}
@@ -427,7 +480,11 @@ func ruleCloseWithCallers(c *core.Ctx, a *epAnchors, lc *core.LockCache, rule st
 					if _, isTake := a.takeOutHelper(c, lc, cr.Call.StaticCallee()); isTake {
 						r0 := core.Canon(recv)
 						isRecv := func(v ssa.Value) bool { return core.Canon(v) == r0 }
-						if core.Guarded(fn, in, core.Ne(isRecv, core.IsNilConst)) {
+						isFound := func(v ssa.Value) bool {
+							e, ok := core.Canon(v).(*ssa.Extract)
+							return ok && e.Tuple == ssa.Value(cr) && e.Index == 1
+						}
+						if core.Guarded(fn, in, core.Ne(isRecv, core.IsNilConst)) || core.Guarded(fn, in, core.IsTrue(isFound)) {
 							c.Pass(rule, key, call.Pos(), "the handler was taken out of the table by "+core.FuncKey(cr.Call.StaticCallee())+" (non-nil slot read and cleared in one critical section) before it is closed")
 							continue
 						}
@@ -439,7 +496,7 @@ func ruleCloseWithCallers(c *core.Ctx, a *epAnchors, lc *core.LockCache, rule st
 			// guarded by slot != nil
 			isSlot := func(v ssa.Value) bool {
 				i2, ok := a.slotLoadIndex(v)
-				return ok && core.SameValue(i2, idx)
+				return ok && sameIndexVia(c, fn, i2, idx)
 			}
 			if !core.Guarded(fn, in, core.Ne(isSlot, core.IsNilConst)) {
 				c.Fail(rule, key, call.Pos(), "Handler.closeWith is called on a slot not tested against nil")
@@ -613,7 +670,7 @@ func ruleSlotFill(c *core.Ctx, a *epAnchors, lc *core.LockCache, rule string) {
 	}
 	isSlot := func(v ssa.Value) bool {
 		i2, ok := a.slotLoadIndex(v)
-		return ok && isID(i2)
+		return ok && (isID(i2) || sameIndexVia(c, fn, i2, idp))
 	}
 	for i, ret := range core.Returns(fn) {
 		if !successReturn(ret) {
@@ -631,7 +688,19 @@ func ruleSlotFill(c *core.Ctx, a *epAnchors, lc *core.LockCache, rule string) {
 				pi, isTake := a.takeOutHelper(c, lc, cr.Call.StaticCallee())
 				return isTake && pi < len(cr.Call.Args) && isID(cr.Call.Args[pi])
 			}
-			ok = core.Guarded(fn, ret, core.Ne(isTaken, core.IsNilConst))
+			isFoundFlag := func(v ssa.Value) bool {
+				e, isE := core.Canon(v).(*ssa.Extract)
+				if !isE || e.Index != 1 {
+					return false
+				}
+				cr, isC := e.Tuple.(*ssa.Call)
+				if !isC {
+					return false
+				}
+				pi, isTake := a.takeOutHelper(c, lc, cr.Call.StaticCallee())
+				return isTake && pi < len(cr.Call.Args) && isID(cr.Call.Args[pi])
+			}
+			ok = core.Guarded(fn, ret, core.Ne(isTaken, core.IsNilConst)) || core.Guarded(fn, ret, core.IsTrue(isFoundFlag))
 		}
 		c.Check(ok, rule, key, ret.Pos(), "nil error only for 0 <= id < len(handlers) with a non-nil slot",
 			"RemoveHandler can report success for an out-of-range id or an empty slot (removing an unknown or already-removed handler must be an error)")
@@ -1476,9 +1545,19 @@ func phiLeaves(v ssa.Value) []ssa.Value {
 // non-negative-constant return of which is guarded, inside the helper, by
 // handlers[result] == nil (a "find a free slot" helper).
 func (a *epAnchors) indexFromFreeSlotHelper(c *core.Ctx, fn *ssa.Function, use ssa.Instruction, idx ssa.Value) bool {
-	return searchHelperIndex(c, fn, use, idx, func(h *ssa.Function, v ssa.Value, arg func(ssa.Value) ssa.Value) core.EdgeMatcher {
+	// "no free slot" may be told by the length of the table: one past the end,
+	// where nothing is replaced (the caller appends)
+	isLen := func(v ssa.Value) bool {
+		call, ok := core.Canon(v).(*ssa.Call)
+		if !ok {
+			return false
+		}
+		bi, ok := call.Call.Value.(*ssa.Builtin)
+		return ok && bi.Name() == "len" && isFieldOf(call.Call.Args[0], a.handlers)
+	}
+	return searchHelperIndexX(c, fn, use, idx, func(h *ssa.Function, v ssa.Value, arg func(ssa.Value) ssa.Value) core.EdgeMatcher {
 		return a.freeSlotMatcher(v)
-	})
+	}, isLen)
 }
 
 // searchHelperIndex: idx is the result of a private search helper: every value
@@ -1487,8 +1566,16 @@ func (a *epAnchors) indexFromFreeSlotHelper(c *core.Ctx, fn *ssa.Function, use s
 // search variable that starts at the sentinel), and fn uses idx only where it
 // was tested not to be the sentinel.
 func searchHelperIndex(c *core.Ctx, fn *ssa.Function, use ssa.Instruction, idx ssa.Value, matcherFor0 func(h *ssa.Function, v ssa.Value, arg func(ssa.Value) ssa.Value) core.EdgeMatcher) bool {
-	call, _ := core.CallResult(core.Canon(idx))
-	if call == nil {
+	return searchHelperIndexX(c, fn, use, idx, matcherFor0, nil)
+}
+
+// searchHelperIndexX: as searchHelperIndex; alsoFine names returned values that
+// need no guard (an index one past the end of the table), and a helper of the
+// form (index, found bool) is understood: what it returns next to found=false
+// is not an index, and the caller uses the index only where found is true.
+func searchHelperIndexX(c *core.Ctx, fn *ssa.Function, use ssa.Instruction, idx ssa.Value, matcherFor0 func(h *ssa.Function, v ssa.Value, arg func(ssa.Value) ssa.Value) core.EdgeMatcher, alsoFine func(ssa.Value) bool) bool {
+	call, ridx := core.CallResult(core.Canon(idx))
+	if call == nil || ridx > 0 {
 		return false
 	}
 	h := call.Call.StaticCallee()
@@ -1528,9 +1615,24 @@ func searchHelperIndex(c *core.Ctx, fn *ssa.Function, use ssa.Instruction, idx s
 		n++
 		return core.Guarded(h, at, matcherFor(h, v))
 	}
+	withFlag := false
+	if res := h.Signature.Results(); res.Len() == 2 {
+		if b, ok := res.At(1).Type().Underlying().(*types.Basic); ok && b.Kind() == types.Bool {
+			withFlag = true
+		}
+	}
 	for _, ret := range core.Returns(h) {
 		if len(ret.Results) == 0 {
 			return false
+		}
+		if withFlag {
+			if found, isConst := core.ConstBool(core.RetVal(ret, 1)); isConst && !found {
+				continue // (whatever, false): not an index
+			}
+		}
+		if alsoFine != nil && alsoFine(core.RetVal(ret, 0)) {
+			n++
+			continue
 		}
 		if !holds(ret, core.RetVal(ret, 0), 0) {
 			return false
@@ -1538,6 +1640,16 @@ func searchHelperIndex(c *core.Ctx, fn *ssa.Function, use ssa.Instruction, idx s
 	}
 	if n == 0 {
 		return false
+	}
+	if withFlag {
+		// the caller uses the index only where the flag says it is one
+		isFound := func(v ssa.Value) bool {
+			e, ok := core.Canon(v).(*ssa.Extract)
+			return ok && e.Tuple == ssa.Value(call) && e.Index == 1
+		}
+		if !core.Guarded(fn, use, core.IsTrue(isFound)) {
+			return false
+		}
 	}
 	if sentinel {
 		// the caller uses the result only where it is not the sentinel
